@@ -524,7 +524,7 @@ class CliProperty:
             "a sample of invocations as real subprocesses of `python -m nix_manipulator` (real pipes, /dev/full)"]
     stubbed = ["process boundary (sys.stdin/stdout/stderr objects, SystemExit/uncaught-exception to exit-status mapping)", "stdout device faults (EPIPE/ENOSPC raised by an in-memory sink)"]
 
-    def __init__(self, quick_runs=6000, thorough_runs=150000):
+    def __init__(self, quick_runs=20000, thorough_runs=300000):
         self.pid = "C16"
         self.runs = {"quick": quick_runs, "thorough": thorough_runs}
         self.subprocess_every = {"quick": 150, "thorough": 150}
